@@ -356,6 +356,20 @@ def pack_union(
                     f"if value.__class__ {packer_arg_type_check}:"
                 ):
                     lines.append(f"return {packer}")
+            elif not spec.builder.is_nailed and all(
+                is_dataclass(get_type_origin(t))
+                for t in packer_arg_types[packer]
+            ):
+                # a dataclass packer of a codec is a plain function, so it
+                # must not be tried on instances of the other variants
+                with lines.indent(
+                    "if isinstance(value, "
+                    f"({', '.join(packer_arg_type_names)},)):"
+                ):
+                    with lines.indent("try:"):
+                        lines.append(f"return {packer}")
+                    with lines.indent("except Exception:"):
+                        lines.append("pass")
             else:
                 with lines.indent("try:"):
                     lines.append(f"return {packer}")
